@@ -3,9 +3,11 @@
 // guards so that function-local statics are scheduling points.
 #include "vsched.h"
 
+#include <linux/futex.h>
 #include <pthread.h>
 #include <sched.h>
-#include <semaphore.h>
+#include <sys/syscall.h>
+#include <unistd.h>
 
 #include <cstdio>
 #include <cstdlib>
@@ -17,10 +19,25 @@
 namespace vsched {
 namespace {
 
+// Hand-off gates: raw futex words, so that a ThreadSanitizer build (this TU is compiled WITHOUT
+// -fsanitize=thread) sees no happens-before edge from the scheduler's own hand-offs: races in the
+// code under test stay visible although only one thread runs at a time.
+struct Gate { int w = 0; };
+inline void gate_post(Gate* g) {
+  __atomic_store_n(&g->w, 1, __ATOMIC_SEQ_CST);
+  syscall(SYS_futex, &g->w, FUTEX_WAKE, 1, nullptr, nullptr, 0);
+}
+inline void gate_wait(Gate* g) {
+  for (;;) {
+    if (__atomic_exchange_n(&g->w, 0, __ATOMIC_SEQ_CST) == 1) return;
+    syscall(SYS_futex, &g->w, FUTEX_WAIT, 0, nullptr, nullptr, 0);
+  }
+}
+
 struct Thread {
   int id = -1;
   pthread_t pt;
-  sem_t go;
+  Gate go;
   bool done = false;
   int pend_kind = 0;
   const void* pend_obj = nullptr;
@@ -32,7 +49,7 @@ struct Thread {
 bool g_active = false;
 unsigned g_mask = 0;
 std::vector<Thread*> g_threads;
-sem_t g_ctl;
+Gate g_ctl;
 std::map<const void*, int>* g_owner = nullptr;          // blocking object -> owning thread
 std::map<const void*, uint64_t>* g_objhash = nullptr;   // per-object operation history hash
 __thread int tl_tid = -1;
@@ -46,13 +63,13 @@ inline uint64_t mix(uint64_t h, uint64_t v) {
 void* tramp(void* p) {
   Thread* t = static_cast<Thread*>(p);
   tl_tid = t->id;
-  sem_wait(&t->go);
+  gate_wait(&t->go);
   t->body();
   // final point so that "thread end" can be ordered against others
   vp_point(VP_THREAD_END, nullptr);
   t->done = true;
   tl_tid = -1;
-  sem_post(&g_ctl);
+  gate_post(&g_ctl);
   return nullptr;
 }
 
@@ -83,7 +100,7 @@ Exec run(const std::vector<std::function<void()>>& bodies, const std::vector<int
   if (!g_owner) { g_owner = new std::map<const void*, int>; g_objhash = new std::map<const void*, uint64_t>; }
   g_owner->clear();
   g_objhash->clear();
-  sem_init(&g_ctl, 0, 0);
+  g_ctl.w = 0;
   g_mask = kinds_mask;
   g_threads.clear();
   for (size_t i = 0; i < bodies.size(); ++i) {
@@ -91,7 +108,6 @@ Exec run(const std::vector<std::function<void()>>& bodies, const std::vector<int
     t->id = static_cast<int>(i);
     t->body = bodies[i];
     t->pend_kind = VP_OP_BEGIN;
-    sem_init(&t->go, 0, 0);
     g_threads.push_back(t);
   }
   g_active = true;
@@ -107,8 +123,8 @@ Exec run(const std::vector<std::function<void()>>& bodies, const std::vector<int
       again = false;
       for (Thread* t : g_threads) {
         if (t->done || (t->pend_kind != VP_OP_BEGIN && t->pend_kind != VP_THREAD_END)) continue;
-        sem_post(&t->go);
-        sem_wait(&g_ctl);
+        gate_post(&t->go);
+        gate_wait(&g_ctl);
         again = true;
         break;
       }
@@ -149,15 +165,14 @@ Exec run(const std::vector<std::function<void()>>& bodies, const std::vector<int
       (*g_objhash)[key] = mix((*g_objhash)[key], static_cast<uint64_t>(t->id) * 16 + t->pend_kind);
     t->npoints++;
     last = pr.tid;
-    sem_post(&t->go);
-    sem_wait(&g_ctl);
+    gate_post(&t->go);
+    gate_wait(&g_ctl);
   }
   g_active = false;
   if (!ex.deadlock && !ex.diverged) {
-    for (Thread* t : g_threads) { pthread_join(t->pt, nullptr); sem_destroy(&t->go); delete t; }
+    for (Thread* t : g_threads) { pthread_join(t->pt, nullptr); delete t; }
   }
   g_threads.clear();
-  sem_destroy(&g_ctl);
   return ex;
 }
 
@@ -213,8 +228,8 @@ void vp_point(int kind, const void* obj) {
   Thread* t = g_threads[tl_tid];
   t->pend_kind = kind;
   t->pend_obj = obj;
-  sem_post(&g_ctl);
-  sem_wait(&t->go);
+  gate_post(&g_ctl);
+  gate_wait(&t->go);
   t->pend_kind = 0;
   t->pend_obj = nullptr;
 }
@@ -230,18 +245,26 @@ void vp_released(const void* obj) {
   g_owner->erase(obj);
 }
 
+// Under ThreadSanitizer the guard protocol below is invisible (uninstrumented TU), so the
+// happens-before edge "initialisation complete -> later users" is announced explicitly.
+void __tsan_acquire(void* addr) __attribute__((weak));
+void __tsan_release(void* addr) __attribute__((weak));
+static inline void ann_acquire(void* a) { if (__tsan_acquire) __tsan_acquire(a); }
+static inline void ann_release(void* a) { if (__tsan_release) __tsan_release(a); }
+
 // --- function-local statics -------------------------------------------------
 // Itanium ABI: byte 0 of the guard = "initialised".  Byte 1 is used here as the
 // "in progress" flag.  No function-local static may be used in here.
 int __cxa_guard_acquire(uint64_t* g) {
   volatile unsigned char* b = reinterpret_cast<volatile unsigned char*>(g);
-  if (__atomic_load_n(b, __ATOMIC_ACQUIRE)) return 0;
+  if (__atomic_load_n(b, __ATOMIC_ACQUIRE)) { ann_acquire(g); return 0; }
   vp_point(VP_GUARD_ACQ, g);
   for (;;) {
-    if (__atomic_load_n(b, __ATOMIC_ACQUIRE)) return 0;
+    if (__atomic_load_n(b, __ATOMIC_ACQUIRE)) { ann_acquire(g); return 0; }
     unsigned char expected = 0;
     if (__atomic_compare_exchange_n(const_cast<unsigned char*>(b + 1), &expected, 1, false, __ATOMIC_ACQ_REL, __ATOMIC_ACQUIRE)) {
       vp_acquired(g);
+      ann_acquire(g);
       return 1;
     }
     sched_yield();  // only reachable outside the scheduler (free-running phases)
@@ -250,6 +273,7 @@ int __cxa_guard_acquire(uint64_t* g) {
 void __cxa_guard_release(uint64_t* g) {
   volatile unsigned char* b = reinterpret_cast<volatile unsigned char*>(g);
   vp_point(VP_GUARD_REL, g);
+  ann_release(g);
   __atomic_store_n(b, 1, __ATOMIC_RELEASE);
   __atomic_store_n(b + 1, 0, __ATOMIC_RELEASE);
   vp_released(g);
